@@ -8,6 +8,9 @@ bool g_dalpha, g_salpha, g_malpha;
 uint8_t g_dcw, g_scw, g_mcw;
 ssize_t g_dx, g_dy, g_sx, g_sy, g_mx, g_my, g_ex, g_ey;
 uint64_t g_dr, g_dg, g_db, g_da, g_sr, g_sg, g_sb, g_sa, g_mr, g_mg, g_mb, g_ma, g_er, g_eg, g_eb, g_ea;
+ssize_t g_cw, g_ch;
+bool g_tup_ok;
+uint64_t g_t_al, g_t_cr, g_t_cg, g_t_cb, g_t_ca, g_t_dr, g_t_dg, g_t_db, g_t_da, g_t_mx, g_t_e1, g_t_e2, g_bo_r, g_bo_g, g_bo_b, g_bo_a, g_bo_e;
 uint32_t g_cb_d, g_cb_s, g_cb_out;
 uint64_t g_ci_dr, g_ci_dg, g_ci_db, g_ci_da, g_ci_sr, g_ci_sg, g_ci_sb, g_ci_sa, g_co_r, g_co_g, g_co_b, g_co_a;
 #include "x_pixel.c"
@@ -23,6 +26,8 @@ uint64_t g_ci_dr, g_ci_dg, g_ci_db, g_ci_da, g_ci_sr, g_ci_sg, g_ci_sb, g_ci_sa,
              GH(uint64_t, mr) GH(uint64_t, mg) GH(uint64_t, mb) GH(uint64_t, ma)
 #define IN_CB GH(uint32_t, cb_d) GH(uint32_t, cb_s) GH(uint32_t, cb_out) GH(uint64_t, ci_dr) GH(uint64_t, ci_dg) GH(uint64_t, ci_db) GH(uint64_t, ci_da) \
               GH(uint64_t, ci_sr) GH(uint64_t, ci_sg) GH(uint64_t, ci_sb) GH(uint64_t, ci_sa) GH(uint64_t, co_r) GH(uint64_t, co_g) GH(uint64_t, co_b) GH(uint64_t, co_a)
+#define IN_T GH(bool, tup_ok) GH(uint64_t, t_al) GH(uint64_t, t_cr) GH(uint64_t, t_cg) GH(uint64_t, t_cb) GH(uint64_t, t_ca) GH(uint64_t, t_dr) GH(uint64_t, t_dg) \
+             GH(uint64_t, t_db) GH(uint64_t, t_da) GH(uint64_t, t_mx) GH(uint64_t, t_e1) GH(uint64_t, t_e2) GH(uint64_t, bo_r) GH(uint64_t, bo_g) GH(uint64_t, bo_b) GH(uint64_t, bo_a) GH(uint64_t, bo_e)
 #define IN_RECT ssize_t in_x, in_y, in_w, in_h
 #define IN_BLIT IN_RECT, in_sx, in_sy
 #define IN_RGBA uint64_t in_r, in_g, in_b, in_a
@@ -36,13 +41,13 @@ void h_write_pixel_c(void) { Image img; IN_D ssize_t in_x, in_y; uint32_t in_c; 
 void h_clamp(void) { const Image *d, *s; ssize_t *x, *y, *w, *h, *sx, *sy; GH(ssize_t, dx) GH(ssize_t, dy) clamp_blit_dimensions(d, s, x, y, w, h, sx, sy); VERIF_REACH(); }
 
 /* ---- fill / clear ---- */
-void h_fill_rect(void) { Image* self; IN_D IN_RECT; IN_RGBA; Image_fill_rect(self, in_x, in_y, in_w, in_h, in_r, in_g, in_b, in_a); VERIF_REACH(); }
-void h_fill_rect_c(void) { Image* self; IN_D IN_RECT; uint32_t in_c; Image_fill_rect_c(self, in_x, in_y, in_w, in_h, in_c); VERIF_REACH(); }
+void h_fill_rect(void) { Image* self; IN_D IN_T IN_RECT; IN_RGBA; Image_fill_rect(self, in_x, in_y, in_w, in_h, in_r, in_g, in_b, in_a); VERIF_REACH(); }
+void h_fill_rect_c(void) { Image* self; IN_D IN_T IN_RECT; uint32_t in_c; Image_fill_rect_c(self, in_x, in_y, in_w, in_h, in_c); VERIF_REACH(); }
 void h_clear(void) { Image* self; IN_D IN_RGBA; Image_clear(self, in_r, in_g, in_b, in_a); VERIF_REACH(); }
 void h_clear_c(void) { Image* self; IN_D uint32_t in_c; Image_clear_c(self, in_c); VERIF_REACH(); }
 
 /* ---- blits ---- */
-#define HB(name, decl, ...) void h_##name(void) { Image* self; const Image* source; IN_D IN_S IN_CB IN_BLIT; decl; \
+#define HB(name, decl, ...) void h_##name(void) { Image* self; const Image* source; IN_D IN_S IN_CB IN_T IN_BLIT; decl; \
   Image_##name(self, source, in_x, in_y, in_w, in_h, in_sx, in_sy __VA_ARGS__); VERIF_REACH(); }
 HB(blit, int in_unused)
 HB(mask_blit_rgb, IN_RGBA, , in_r, in_g, in_b)
@@ -55,3 +60,14 @@ HB(custom_blit_c, int in_unused)
 HB(custom_blit_rgba, int in_unused)
 void h_mask_blit_mask(void) { Image* self; const Image* source; const Image* mask; IN_D IN_S IN_M IN_BLIT;
   Image_mask_blit_mask(self, source, in_x, in_y, in_w, in_h, in_sx, in_sy, mask); VERIF_REACH(); }
+
+/* ---- outlined blend expressions: function-point contract against the specification formula, all arguments ---- */
+#define HA8(name) void h_##name(void) { IN_T uint64_t in_p[8]; name(in_p[0], in_p[1], in_p[2], in_p[3], in_p[4], in_p[5], in_p[6], in_p[7]); VERIF_REACH(); }
+HA8(x_fill_bl1) HA8(x_fill_bl2) HA8(x_fill_bl3) HA8(x_fill_bl4) HA8(x_blit_bl1) HA8(x_blit_bl2) HA8(x_blit_bl3) HA8(x_blit_bl4)
+#define HAM(name) void h_##name(void) { IN_T uint64_t in_p[8]; Image img; uint64_t in_max; img.max_value = in_max; \
+  name(&img, in_p[0], in_p[1], in_p[2], in_p[3], in_p[4], in_p[5], in_p[6], in_p[7]); VERIF_REACH(); }
+HAM(x_blend_bl1) HAM(x_blend_bl2) HAM(x_blend_bl3) HAM(x_blend_bl4)
+void h_x_blenda_bl1(void) { IN_T uint64_t in_p[8]; Image img; uint64_t in_max; img.max_value = in_max; x_blenda_bl1(&img, in_p[0], in_p[1], in_p[2], in_p[3], in_p[4]); VERIF_REACH(); }
+#define HAA(name) void h_##name(void) { IN_T uint64_t in_p[8]; Image img; uint64_t in_max, in_sa, in_ea; img.max_value = in_max; \
+  name(&img, in_sa, in_ea, in_p[0], in_p[1], in_p[2], in_p[3], in_p[4], in_p[5], in_p[6], in_p[7]); VERIF_REACH(); }
+HAA(x_blenda_bl2) HAA(x_blenda_bl3) HAA(x_blenda_bl4)
